@@ -244,7 +244,10 @@ def settle(greenlets, gates, who):
     raise RuntimeError('greenlet did not reach a gate')
 
 
-def run_threads(bodies, schedule, gates):
+SILENT = ('readdone',)       # gate points that are yield points only: no command of the model
+
+
+def run_threads(bodies, schedule, gates, progress=None):
     """bodies: callables (one per thread), each issuing gated commands.
     schedule: list of thread indexes.  Returns (greenlets, executed) where
     executed is the list of (thread, description) of the commands released, in
@@ -254,15 +257,25 @@ def run_threads(bodies, schedule, gates):
     for g in gs:
         settle(gs, gates, g)
     executed = []
-    for i in schedule:
-        if i >= len(gs):
-            continue
+
+    def step(i):
         g = gs[i]
         if g.dead or g not in gates.pending:
-            continue
+            return False
         desc = gates.release(g)
-        executed.append((i, desc))
+        if desc[0] not in SILENT:
+            executed.append((i, desc))
         settle(gs, gates, g)
+        return True
+    for item in schedule:
+        if isinstance(item, (tuple, list)):
+            # ('ops', i, k): thread i runs until it has completed k operations (progress(i) >= k)
+            _, i, k = item
+            while i < len(gs) and progress is not None and progress(i) < k and step(i):
+                pass
+            continue
+        if item < len(gs):
+            step(item)
     return gs, executed
 
 
@@ -673,6 +686,7 @@ class DiskHarness(object):
         self.quiet = False       # recovery reads by the harness: no log, no gate, no crash
         self.fd_tmp = {}
         self.fds = set()         # every descriptor handed to the code under test and not yet closed
+        self.gate_reads = False  # also gate the completion of every aio_read (silent yield point)
         self.on_effect = None
 
     # -- life cycle
@@ -814,6 +828,11 @@ class DiskHarness(object):
 
     def _aio_read(self, fd, offset, size, callback):
         buf = os.pread(fd, size, offset)
+        # The completion of an asynchronous read is a yield point of its own: with
+        # gate_reads the result is handed to the code only when the scheduler says so
+        # (no file-system effect, not part of the effect log).
+        if self.gate is not None and self.gate_reads and not self.quiet:
+            self.gate(('readdone', fd))
         callback(buf, len(buf), 0)
 
 
